@@ -123,7 +123,7 @@ fn generic_sweep(run: &Run, prop: &str) -> i32 {
             }
         }
         "C20" => {
-            plan.see_family = Some(if run.quick() { 2 } else { 3 });
+            plan.see_family = Some(if run.quick() { 3 } else { 4 });
             plan.promo = true;
         }
         _ => {}
@@ -470,9 +470,6 @@ fn c14(run: &Run) -> i32 {
     let (a, b) = timealloc::virtual_clock_runs(run);
     s += a;
     t += b;
-    for v in 0..3 {
-        run.distinct_outcome(format!("o{v}"));
-    }
     run.assume("part 2 of the property (a search returns before the clock runs out) is explored with a virtual clock in the search-session checks; real wall-clock time cannot be enumerated");
     report::finish(run, s, t, "every tuple of the clock grid through TimeStrategy::new: hard <= (remaining - overhead)/2 (+1 ms tolerance for the f32 arithmetic), soft <= hard; movetime used as given", true)
 }
@@ -495,8 +492,6 @@ fn c10(run: &Run) -> i32 {
         run.require(f, 50);
     }
     run.sample(J::obj(vec![("position", J::s("rnbqkb1r/ppp1pppp/5n2/3p3Q/4P3/8/PPPP1PPP/RNB1KBNR w KQkq - 2 3")), ("config", J::s("hash=- killers_pushed=[g1f3,b1c3] counter=- history=0 ply=0"))]));
-    run.distinct_outcome("multiset-equal".into());
-    run.distinct_outcome("loud-subset".into());
     run.assume("killer slots are filled through KillersTable::try_push and the counter move through CountermoveTable::set keyed by the real previous move, so only reachable table states are explored; history scores: zero / ascending / descending");
     run.assume("the order of the stream is not asserted (the property speaks about the set)");
     report::finish(run, s, streams.max(s), &format!("positions with a previous move (BFS from {} seeds) x every configuration of hash move / killers / counter move / history / ply with at most {} simultaneous deviations from the default; the stream of MovePicker::next as a multiset equals the reference legal moves; captures-only stream duplicate-free, legal, containing all captures and queen promotions", families::seeds().len(), mon.c10 - 1), true)
@@ -518,9 +513,6 @@ fn c04_c08(run: &Run, prop: &str) -> i32 {
     }
     run.sample(J::obj(vec![("session", J::s("hash 1 MB, generation 254: search [8/6k1/8/2R5/8/1K6/3Q1p2/8 w - - 1 25] depth 1, 2, ... 6, 5, ... 1 on one persistent state"))]));
     run.sample(J::obj(vec![("session", J::s("K+Q v K, white king b1, black king h8: every queen square x both sides, depth 6, searched one after the other on one table starting at generation 255"))]));
-    for i in 0..3 {
-        run.distinct_outcome(format!("family{i}"));
-    }
     run.assume("checked build: overflow checks and debug assertions on, every search inside catch_unwind; non-termination = more than 60 M nodes (deterministic budget reported through hook H1)");
     run.assume("oracle: refchess legal moves / checkmate; the same sessions at depth limits only are replayed on the optimised binary by C13/C17's black-box runs");
     let rule = if prop == "C04" {
@@ -535,9 +527,6 @@ fn c09(run: &Run) -> i32 {
     let (s, t) = crate::searchchk::c09(run);
     run.require("polls_of_unperturbed_searches", 30);
     run.sample(J::obj(vec![("session", J::s("search [kiwipete] depth 7 with the stop flag true from poll k (k = 1..P), then depth 4 of the same and of a child position on the same tables"))]));
-    for i in 0..3 {
-        run.distinct_outcome(format!("family{i}"));
-    }
     run.assume("the stop flag is behind the seam of hook H1 (is_force_stopped); the polling frequency is the production one");
     report::finish(run, s, t, "for each (position, limit): every index k of the poll at which the stop is first observed; after the first true observation no further node visit and no further poll; legal move returned; input position untouched; follow-up searches on the same tables return legal moves and legal lines", true)
 }
@@ -547,9 +536,6 @@ fn c12(run: &'static Run) -> i32 {
     let (a, b) = crate::bbchk::c12(run);
     s += a;
     t += b;
-    for i in 0..3 {
-        run.distinct_outcome(format!("family{i}"));
-    }
     run.sample(J::obj(vec![("session", J::s("search [kiwipete] depth 5 | sethash 2 | ucinewgame | search [startpos] depth 5   vs   fresh Hash 2: search [startpos] depth 5"))]));
     run.assume("time / nps fields are removed from the traces; everything else (best move, depth, seldepth, score, line, nodes, hashfull) must be identical");
     run.assume("machine load: the 16 workers execute duplicates concurrently; wall-clock independence: depth-limited searches under four clock behaviours");
@@ -561,9 +547,6 @@ fn c13(run: &'static Run) -> i32 {
     let (a, b) = crate::bbchk::c13(run);
     s += a;
     t += b;
-    for i in 0..3 {
-        run.distinct_outcome(format!("family{i}"));
-    }
     run.assume("the option ranges are parsed from the engine's own `uci` answer, so a changed advertisement changes the enumeration");
     report::finish(run, s, t, "every advertised spin option x the values listed in coverage.families: setoption accepted, isready answered, option value taken, go depth 3 answered by exactly one legal bestmove; the search thread must neither die nor hang", true)
 }
@@ -573,9 +556,6 @@ fn c17(run: &Run) -> i32 {
     let (a, b) = crate::bbchk::c17(run);
     s += a;
     t += b;
-    for i in 0..3 {
-        run.distinct_outcome(format!("family{i}"));
-    }
     run.assume("oracle: refchess apply() along the game, en-passant field by the tolerant rule; the replies are compared in long algebraic form as the engine's Debug formatting of Move prints them (the form `d perftdiv` uses)");
     report::finish(run, s, t, "every enumerated game sent as one position command to the real command loop: resulting position equals the rules-level position, FEN dump describes it, history length equals the number of moves, the set of replies equals the legal moves in long algebraic form, bestmove text well-formed and legal", true)
 }
